@@ -337,3 +337,150 @@ func IncludeTreeFiles(kids [][]int, reverse bool) []dump.File {
 	}
 	return fs
 }
+
+// ManyUses: grouping g (a leaf with a default, a leaf-list with three defaults, a container with a
+// list) used in n containers u0.. of module a and in n containers of module b.
+func ManyUses(n int) []dump.File {
+	var a, b strings.Builder
+	a.WriteString(hdr("a") + ` typedef t { type int8 { range "1..9"; } } grouping g { leaf gl { type t; default 3; } leaf-list gll { type string; default x; default y; default z; } container gc { list gli { key k; leaf k { type string; } max-elements 5; } } }`)
+	b.WriteString(hdr("b") + " import a { prefix a; }")
+	for i := 0; i < n; i++ {
+		fmt.Fprintf(&a, " container u%d { uses g; }", i)
+		fmt.Fprintf(&b, " container v%d { config false; uses a:g; }", i)
+	}
+	a.WriteString(" }")
+	b.WriteString(" }")
+	return []dump.File{{Name: "a.yang", Text: a.String()}, {Name: "b.yang", Text: b.String()}}
+}
+
+// ManyLeaves: n leaves of typedef t, n leaves narrowing it, n leaf-lists of it, spread over two
+// containers.
+func ManyLeaves(n int) dump.File {
+	var sb strings.Builder
+	sb.WriteString(hdr("m") + ` typedef t { type int16 { range "1..500"; } units u; default 7; } typedef t2 { type t { range "2..400"; } }`)
+	for i := 0; i < n; i++ {
+		fmt.Fprintf(&sb, ` leaf a%d { type t; } leaf b%d { type t2 { range "3..%d"; } } leaf-list c%d { type t; }`, i, i, 10+i%300, i)
+	}
+	sb.WriteString(" }")
+	return dump.File{Name: "m.yang", Text: sb.String()}
+}
+
+// ManyAugments: module b with container top; modules x0..x(n-1), each augmenting /b:top with its own
+// leaf and container, x(i) also augmenting what x(i-1) grafted.
+func ManyAugments(n int) []dump.File {
+	fs := []dump.File{{Name: "b.yang", Text: hdr("b") + " container top { leaf own { type string; } } }"}}
+	for i := 0; i < n; i++ {
+		var sb strings.Builder
+		name := fmt.Sprintf("x%d", i)
+		sb.WriteString(hdr(name) + " import b { prefix b; }")
+		if i > 0 {
+			fmt.Fprintf(&sb, " import x%d { prefix p; } augment /b:top/p:c%d { leaf chained%d { type string; } }", i-1, i-1, i)
+		}
+		fmt.Fprintf(&sb, " augment /b:top { leaf l%d { type string; } container c%d { leaf in { type int8; } } } }", i, i)
+		fs = append(fs, dump.File{Name: name + ".yang", Text: sb.String()})
+	}
+	return fs
+}
+
+// ManyDeviations: module b with n leaves (each with a default) and n leaf-lists in a container; one
+// module with a deviation per leaf (replace default di), per second leaf-list (add max-elements) and
+// not-supported for every third leaf of a second container.
+func ManyDeviations(n int) []dump.File {
+	var b, d strings.Builder
+	b.WriteString(hdr("b") + " container top {")
+	d.WriteString(hdr("d") + " import b { prefix b; }")
+	for i := 0; i < n; i++ {
+		fmt.Fprintf(&b, " leaf l%d { type string; default o%d; } leaf-list ll%d { type string; } leaf z%d { type int8; }", i, i, i, i)
+		fmt.Fprintf(&d, " deviation /b:top/b:l%d { deviate replace { default d%d; } }", i, i)
+		if i%2 == 0 {
+			fmt.Fprintf(&d, " deviation /b:top/b:ll%d { deviate add { max-elements %d; } }", i, i+1)
+		}
+		if i%3 == 0 {
+			fmt.Fprintf(&d, " deviation /b:top/b:z%d { deviate not-supported; }", i)
+		}
+	}
+	b.WriteString(" } }")
+	d.WriteString(" }")
+	return []dump.File{{Name: "b.yang", Text: b.String()}, {Name: "d.yang", Text: d.String()}}
+}
+
+// ManyModuleIdentities: module m0 with identity root; modules m1..mn, each with an identity derived
+// from root and from the previous module's identity, and an identityref leaf.
+func ManyModuleIdentities(n int) []dump.File {
+	fs := []dump.File{{Name: "m0.yang", Text: hdr("m0") + " identity root; identity id0 { base root; } leaf r { type identityref { base root; } } }"}}
+	for i := 1; i <= n; i++ {
+		name := fmt.Sprintf("m%d", i)
+		text := hdr(name) + fmt.Sprintf(" import m0 { prefix z; } import m%d { prefix p; } identity id%d { base z:root; base p:id%d; } leaf r%d { type identityref { base p:id%d; } } }", i-1, i, i-1, i, i-1)
+		if i == 1 {
+			text = hdr(name) + " import m0 { prefix z; } identity id1 { base z:root; base z:id0; } leaf r1 { type identityref { base z:id0; } } }"
+		}
+		fs = append(fs, dump.File{Name: name + ".yang", Text: text})
+	}
+	return fs
+}
+
+// Counts: one module in which a count the other shapes keep small is n: patterns of one type, members
+// of a union, bases of an identity, defaults of a leaf-list, key leaves of a list, must statements and
+// extension statements of a leaf, revision statements of the module (the latest in the middle).
+func Counts(n int) dump.File {
+	var sb strings.Builder
+	sb.WriteString(hdr("m"))
+	for i := 0; i < n; i++ {
+		date := 2000 + (i*7)%n
+		if i == n/2 {
+			date = 2000 + n
+		}
+		fmt.Fprintf(&sb, " revision %04d-01-01;", date)
+	}
+	sb.WriteString(" extension e { argument a; } typedef pt { type string {")
+	for i := 0; i < n; i++ {
+		fmt.Fprintf(&sb, ` pattern "p%d.*";`, i)
+	}
+	sb.WriteString(" } } typedef ut { type union {")
+	for i := 0; i < n; i++ {
+		fmt.Fprintf(&sb, ` type string { length "%d"; }`, i+1)
+	}
+	sb.WriteString(" } }")
+	for i := 0; i < n; i++ {
+		fmt.Fprintf(&sb, " identity b%d;", i)
+	}
+	sb.WriteString(" identity all {")
+	for i := 0; i < n; i++ {
+		fmt.Fprintf(&sb, " base b%d;", i)
+	}
+	sb.WriteString(" } leaf-list dl { type string;")
+	for i := 0; i < n; i++ {
+		fmt.Fprintf(&sb, " default d%d;", i)
+	}
+	sb.WriteString(" } list kl { key \"")
+	for i := 0; i < n; i++ {
+		fmt.Fprintf(&sb, "k%d ", i)
+	}
+	sb.WriteString("\";")
+	for i := 0; i < n; i++ {
+		fmt.Fprintf(&sb, " leaf k%d { type string; }", i)
+	}
+	sb.WriteString(" } leaf pl { type pt; } leaf ul { type ut; } leaf ml { type string;")
+	for i := 0; i < n; i++ {
+		fmt.Fprintf(&sb, ` must "%d = %d"; m:e x%d;`, i, i, i)
+	}
+	sb.WriteString(" } }")
+	return dump.File{Name: "m.yang", Text: sb.String()}
+}
+
+// LongArgs: a module whose description, namespace, pattern, default, units, must expression, path
+// and an extension argument are n bytes long (the description spans lines every 70 bytes).
+func LongArgs(n int) (dump.File, string) {
+	arg := Name('q', n)
+	var desc strings.Builder
+	for i := 0; i < n; i++ {
+		if i%70 == 69 {
+			desc.WriteString("\n ")
+		} else {
+			desc.WriteByte("abcdefgh ij"[i%11])
+		}
+	}
+	text := hdr("m") + ` extension e { argument a; } description "` + desc.String() + `"; leaf t { type string; }
+ leaf l { type string { pattern "` + arg + `.*"; } default "` + arg + `"; units "` + arg + `"; must "` + arg + ` = 1"; m:e "` + arg + `"; } leaf r { type leafref { path "/m:t[m:` + arg + ` = 1]"; } } leaf after { type string; } }`
+	return dump.File{Name: "m.yang", Text: text}, arg
+}
